@@ -13,6 +13,8 @@ VERIF = os.path.dirname(os.path.dirname(os.path.abspath(__file__)))
 REPO = os.environ.get("VERIF_REPO", "/repo")
 PY = os.environ.get("VERIF_PY", "/venv/bin/python")
 SITE = os.path.join(VERIF, "harness", "site")
+# validation runs against mutated copies of the repository redirect their evidence/replays here
+OUT = os.environ.get("VERIF_OUT") or VERIF
 NCPU = os.cpu_count() or 4
 
 
@@ -119,7 +121,7 @@ class Verdicts:
 
 
 def write_evidence(prop, tier, level, coverage, wall_s, violations=0, assumptions=None):
-    d = os.path.join(VERIF, "evidence")
+    d = os.path.join(OUT, "evidence")
     os.makedirs(d, exist_ok=True)
     ev = {
         "property_id": prop,
@@ -140,7 +142,7 @@ def write_evidence(prop, tier, level, coverage, wall_s, violations=0, assumption
 
 def save_replay(prop, name, files=None, copy_dir=None):
     """Keep a violating / known-finding case under /verif/replays/<prop>/<name>."""
-    dst = os.path.join(VERIF, "replays", prop, name)
+    dst = os.path.join(OUT, "replays", prop, name)
     if os.path.isdir(dst):
         shutil.rmtree(dst, ignore_errors=True)
     os.makedirs(dst, exist_ok=True)
